@@ -22,7 +22,7 @@ for path, blocks in sigs.items():
         while i < len(lines) and lines[i].startswith("//@   "):
             body.append(lines[i])
             i += 1
-        body = [l for l in body if not l.startswith("//@   binds ") and not l.startswith("//@   calls ")]
+        body = [l for l in body if not l.startswith("//@   binds ") and not l.startswith("//@   calls ") and not l.startswith("//@   params ")]
         text = " ".join(l for l in body if not re.match(r"^//@   (note|props)\b", l))
         used = set(idre.findall(text))
         names = []
@@ -37,6 +37,7 @@ for path, blocks in sigs.items():
             if calls:
                 # what the closure calls: a second fingerprint, used when a `binds` name is no longer captured
                 body.insert(k + 1, "//@   calls " + " ".join(calls))
+                body.insert(k + 2, "//@   params " + " ".join(blocks.get(m.group(1) + "#params") or ["-"]))
             changed += 1
         out.extend(body)
     new = "\n".join(out)
